@@ -341,4 +341,29 @@ example :
      | .error _ => false) = true := by
   decide
 
+/-! ### (O): order independence -/
+
+/-- (O) If no declared pattern (as the trie keeps it) laxly matches another declared URL (¬F13a, symmetric
+    form), no declared pattern follows another declared URL across the host/path boundary (¬F13c among the
+    declarations) and no (method, pattern) is declared twice (¬F13e), then every permutation of the
+    declarations that also builds gives the same answer to EVERY request (no hypothesis on the request). -/
+theorem order_independent_partial (es es' : List Endpoint) (g : Globals) (pt pt' : PTree)
+    (m : String) (u : List Part) (hperm : es.Perm es')
+    (hbuild : build es = .ok pt) (hbuild' : build es' = .ok pt')
+    (hF13a : crossMatch es = false) (hF13c : cfgBoundaryMix es = false) (hF13e : dupKeys es = false) :
+    observe pt g m u = observe pt' g m u := by
+  obtain ⟨hinv, h2⟩ := build_inv2 hF13a hF13c hF13e hbuild
+  obtain ⟨hinv', h2'⟩ := build_inv2 (crossMatch_perm hperm hF13a) (cfgBoundaryMix_perm hperm hF13c)
+    (dupKeys_perm hperm hF13e) hbuild'
+  have hsel := select_perm hinv h2 hinv' h2' (fun x hx => hperm.mem_iff.mp hx)
+    (fun x hx => hperm.mem_iff.mpr hx) (cfgBoundaryMix_false hF13c) m u
+  simp only [observe, getRemedies, getDiagnoses, shouldDiagnose, hsel]
+
+/-- non-vacuity of (O): overlapping (but not cross-matching) declarations, both orders build and agree. -/
+example :
+    crossMatch [epXY, epPZ] = false ∧ cfgBoundaryMix [epXY, epPZ] = false ∧ dupKeys [epXY, epPZ] = false ∧
+    [epXY, epPZ].Perm [epPZ, epXY] ∧
+    appliedRemedies [epXY, epPZ] "GET" urlWZ = some ["B"] ∧ appliedRemedies [epPZ, epXY] "GET" urlWZ = some ["B"] :=
+  ⟨by decide, by decide, by decide, List.Perm.swap _ _ _, by decide, by decide⟩
+
 end LunarVerif.C13
